@@ -14,13 +14,13 @@ ASSUMPTIONS = [
   "partially specified textDecoration at the root of inheritance",
   "numeric tolerance 1e-9 relative",
 ]
-REQUIRED = ["snapshots:plain", "snapshots:cached", "snapshots:non-empty"]
+REQUIRED = ["corpus-docs", "snapshots:plain", "snapshots:cached", "snapshots:non-empty"]
 SHARD_TIMEOUT = {"quick": 900, "thorough": 7200}
 N = {"quick": 20, "thorough": 2000}
 
 
 def plan(tier, seed):
-  return [{"n": N[tier], "shard": i} for i in range(16)]
+  return [{"n": N[tier], "shard": i} for i in range(14)] + _isdwork.corpus_shards(tier)
 
 
 def run(ctx, params):
